@@ -516,6 +516,10 @@ func constClass(k *bkind, v bval) string {
 }
 
 func c01exec(line string) Result {
+	if line == "prof-stop" {
+		c01profStop()
+		return Result{Out: "ok"}
+	}
 	o, err := c01parse(line)
 	if err != nil {
 		return Result{Out: "bad-op " + err.Error(), Tags: []string{"bad-op"}}
